@@ -81,6 +81,24 @@ class Node:
             else:
                 return n
 
+    def resolve(self):
+        """the lvalue this expression denotes after expanding local aliases: `*p` with `p = &X` is X,
+        a local pointer alias `q = E` is E; otherwise the stripped node itself"""
+        n = self.strip()
+        for _ in range(6):
+            if n.k == "UnaryOperator" and n.j.get("op") == "*" and n.children:
+                t = _resolve_alias(n.children[0]).strip()
+                if t.k == "UnaryOperator" and t.j.get("op") == "&" and t.children:
+                    n = t.children[0].strip()
+                    continue
+            if n.k == "DeclRefExpr":
+                t = _resolve_alias(n)
+                if t is not n:
+                    n = t.strip()
+                    continue
+            break
+        return n
+
     def up(self):
         """Nearest ancestor that is not a transparent wrapper."""
         p = self.parent
